@@ -277,8 +277,10 @@ func verifWFRefinement(ty Type, r unknownValRefinement, where string) error {
 		}
 		if rr.min != NilVal && rr.max != NilVal {
 			// (the library's own order on numbers: numbers that Equals calls equal - same
-			// shortest decimal rendering - are never ordered, whatever their binary values)
-			c := rr.min.v.(*big.Float).Cmp(rr.max.v.(*big.Float))
+			// shortest decimal rendering - are never ordered, whatever their binary values,
+			// and unequal numbers of different precisions are ordered by those renderings,
+			// which is what LessThan and GreaterThan go by)
+			c := numberSetOrderCmp(rr.min.v.(*big.Float), rr.max.v.(*big.Float))
 			if rawNumberEqual(rr.min.v.(*big.Float), rr.max.v.(*big.Float)) {
 				c = 0
 			}
